@@ -286,7 +286,10 @@ class Ctx:
             self.known_hits[out.signature] = \
                 self.known_hits.get(out.signature, 0) + 1
             return False
-        # confirm (real-process parts ask for N re-executions that must all fail)
+        # confirm (real-process parts ask for N re-executions that must all fail;
+        # hangs are diagnosed from stack dumps instead, never re-rolled)
+        if 'hangs' in out.signature or 'host-killed' in out.signature:
+            reexecute_confirm = 0
         for _ in range(reexecute_confirm):
             again = execute(case)
             if not again.violated:
